@@ -21,8 +21,10 @@ LEMMAS = []          # (name, props, fn)
 
 
 class Contract(object):
-    def __init__(self, target, props, spec, kind='function'):
+    def __init__(self, target, props, spec, kind='function', key=None):
         self.target = target      # 'pyPRISM/closure/PercusYevick.py::PercusYevick.calculate'
+        self.key = key or target  # registry key (target, or target#defect:<name> for a known-defect formula)
+        self.only = {}            # property -> goal-name patterns that belong to that property (default: all goals)
         self.props = list(props)
         self.spec = spec          # native python function
         self.spec_name = spec.__name__
@@ -34,12 +36,31 @@ class Contract(object):
         self.notes = ''
 
 
-def contract(target, props=(), trusted=False, notes=''):
+def contract(target, props=(), trusted=False, notes='', only=None):
+    """only = {property: [fnmatch patterns]}: for that property just the matching `post_body:` obligations
+    (conditions from the property statement evaluated on the *code's* post-state) are generated, not the
+    full refinement against the spec function."""
     def deco(fn):
         c = Contract(target, props, fn)
         c.trusted = trusted
         c.notes = notes
+        c.only = dict(only or {})
         CONTRACTS[target] = c
+        fn._contract = c
+        return fn
+    return deco
+
+
+def defect_of(spec_fn, name):
+    """A *known-defect formula*: what the shipped code is known to compute instead of its contract.
+    Used only to recognise a recorded finding precisely: a failing obligation listed in
+    known_findings.txt with defect=<name> is reported as KNOWN-FINDING only if the current code is
+    proved equal to this formula; any other deviation from the contract is still a violation."""
+    def deco(fn):
+        parent = spec_fn._contract
+        c = Contract(parent.target, [], fn, key='%s#defect:%s' % (parent.target, name))
+        c.cases = parent.cases          # same pre-state families (shared list, filled by @cases later)
+        CONTRACTS[c.key] = c
         fn._contract = c
         return fn
     return deco
@@ -89,7 +110,19 @@ class PreconditionViolated(Exception):
     pass
 
 
+def _z3fun(name, x):
+    import z3
+    f = z3.Function(name, z3.RealSort(), z3.RealSort())
+    return f(z3.ToReal(x) if z3.is_int(x) else x)
+
+
+def _is_z3(x):
+    return type(x).__module__.startswith('z3')
+
+
 def exp(x):
+    if _is_z3(x):
+        return _z3fun('exp', x)
     try:
         return math.exp(x)
     except OverflowError:
@@ -97,6 +130,8 @@ def exp(x):
 
 
 def log(x):
+    if _is_z3(x):
+        return _z3fun('log', x)
     if x > 0:
         return math.log(x)
     if x == 0:
@@ -105,10 +140,14 @@ def log(x):
 
 
 def sqrt(x):
+    if _is_z3(x):
+        return _z3fun('sqrt', x)
     return math.sqrt(x) if x >= 0 else float('nan')
 
 
 def sin(x):
+    if _is_z3(x):
+        return _z3fun('sin', x)
     return math.sin(x)
 
 
